@@ -706,17 +706,37 @@ def r85(ctx):
     # `for key, t in <metadata>.items()`: t is the declared type of key
     item_vars = [unparse(l.target.elts[1]) for l in walk_shallow(fn) if isinstance(l, ast.For) and isinstance(l.target, ast.Tuple) and len(l.target.elts) == 2
                  and isinstance(l.iter, ast.Call) and isinstance(l.iter.func, ast.Attribute) and l.iter.func.attr == 'items' and 'metadata' in unparse(l.iter)]
+    # locals that hold the payload: a plain copy (`dict(content)`, `content.copy()`) or a copy without the entries whose value is None (the
+    # original treats a None value as a missing key); only an unfiltered one has the length of the payload
+    views = {content: False}            # name -> filtered?
+    for a in walk_shallow(fn):
+        if isinstance(a, (ast.Assign, ast.AnnAssign)) and getattr(a, 'value', None) is not None:
+            for t_ in (a.targets if isinstance(a, ast.Assign) else [a.target]):
+                if isinstance(t_, ast.Name):
+                    v_ = a.value
+                    names_ = {y.id for y in ast.walk(v_) if isinstance(y, ast.Name)}
+                    if content in names_ and isinstance(v_, ast.DictComp) and len(v_.generators) == 1:
+                        gen = v_.generators[0]
+                        filt = bool(gen.ifs)
+                        none_filter = all(isinstance(c_, ast.Compare) and len(c_.ops) == 1 and isinstance(c_.ops[0], (ast.NotEq, ast.IsNot))
+                                          and isinstance(c_.comparators[0], ast.Constant) and c_.comparators[0].value is None for c_ in gen.ifs)
+                        if none_filter and unparse(v_.key) in unparse(gen.target) and unparse(v_.value) in unparse(gen.target):
+                            views[t_.id] = filt
+                    elif unparse(v_) in (f'dict({content})', f'{content}.copy()', f'{{**{content}}}'):
+                        views[t_.id] = False
     for i in walk_shallow(fn):
         if not (isinstance(i, ast.If) and any(isinstance(x, ast.Raise) for x in i.body)):
             continue
         t = unparse(i.test)
         if f'isinstance({content}, dict)' in t and t.startswith('not'):
             atoms['dict'] = i
-        elif 'len(' in t and '!=' in t and content in t and 'metadata' in t:
+        elif 'len(' in t and '!=' in t and 'metadata' in t and any(f'len({v_})' in t or f'len(dict({v_}))' in t for v_, filt in views.items() if not filt):
             atoms['len'] = i
-        elif ('.get(' in t and 'None' in t) or ('not in' in t and content in t):
+        elif ('.get(' in t and 'None' in t) or ('not in' in t and any(t.endswith(f'not in {v_}') or t.endswith(f'not in dict({v_})') for v_ in views)):
             if 'isinstance' not in t:
                 atoms['key'] = i
+        if 'isinstance(' in t and t.startswith('not') and any(f'{v_}[' in t for v_ in views if v_ != content) and any(v2 in t for v2 in item_vars + ['metadata']):
+            atoms['type'] = i
         if 'isinstance(' in t and '.get(' in t and t.startswith('not') and ('metadata' in t or any(v_ in t for v_ in item_vars)):
             atoms['type'] = i
     for k, i in atoms.items():
